@@ -94,7 +94,8 @@ class Topo:
                 a.fields["_dname"] = f"d{self._n_delay}"
                 self._n_delay += 1
             a.fields.update(source=src, targets=[], name=a.label, is_static=False, time=None)
-            src.fields["targets"].append(a)
+            if src is not None:
+                src.fields["targets"].append(a)
             elems.append(a)
             src = a
         if comp is None:
